@@ -1,4 +1,5 @@
 import Driver.Gen
+import Wee.Spec.San
 /-!
 weedriver run                      : request lines on stdin → `model ||| spec` per line
 weedriver positions <seed> <n>     : n legal positions (canonical FEN), corpus first
@@ -24,6 +25,35 @@ def main (args : List String) : IO UInt32 := do
   | ["positions", seed, n] =>
     for p in genPositions seed.toNat! n.toNat! do
       out.putStrLn (Wee.Spec.writeFen p)
+    return 0
+  | ["sanreqs"] =>
+    -- FEN lines on stdin → `sanmatch` / `lan` request lines for every legal move and every spelling,
+    -- plus negative cases (pseudo-legal but illegal moves, fully disambiguated)
+    let stdin ← IO.getStdin
+    let rec loop : Nat → IO Unit
+      | 0 => pure ()
+      | fuel+1 => do
+        let line ← stdin.getLine
+        if line.isEmpty then return ()
+        let fen := line.trimAscii.toString
+        match Wee.Spec.readFen fen, parseFenM fen with
+        | some p, some st =>
+          let ms := Wee.legalMoves st
+          for sm in Wee.Spec.legalMoves p do
+            -- the packed move with the same attributes (taken from the model list)
+            match ms.find? fun r => Wee.toSpecMove r.1 == some sm with
+            | some r =>
+              out.putStrLn s!"lan {r.1.toNat}"
+              for t in Wee.Spec.spellings p sm do
+                out.putStrLn s!"sanmatch {toHex t} {r.1.toNat} {fen}"
+            | none => out.putStrLn s!"sanmatch {toHex (Wee.Spec.fullSpelling sm)} MISSING {fen}"
+          for sm in Wee.Spec.illegalPseudo p do
+            -- a castle spelled O-O may coexist with no legal castle; other texts must match nothing
+            if !(Wee.Spec.legalMoves p).any (fun l => Wee.Spec.fullSpelling l == Wee.Spec.fullSpelling sm) then
+              out.putStrLn s!"sanmatch {toHex (Wee.Spec.fullSpelling sm)} - {fen}"
+        | _, _ => pure ()
+        loop fuel
+    loop 100000000
     return 0
   | _ =>
     IO.eprintln "usage: weedriver run | positions <seed> <n>"
